@@ -80,7 +80,7 @@ bool parse_responses(std::string const& s, std::vector<Resp>& out, std::string& 
 	return true;
 }
 
-struct Scn { std::vector<int> seq; bool keep_alive; std::vector<int> cuts; int spacing_ms; int stop_at_ms; /* -1 = no stop */ int stop_at_boundary = -1; /* >= 0: stop() is called at that event boundary of the run (step hook): after the k-th handler execution or round top */ };
+struct Scn { std::vector<int> seq; bool keep_alive; std::vector<int> cuts; int spacing_ms; int stop_at_ms; /* -1 = no stop */ int stop_at_boundary = -1; /* >= 0: stop() is called at that event boundary of the run (step hook): after the k-th handler execution or round top */ int truncate_at = -1; /* >= 0: the client sends only that many bytes of the stream and hangs up 10 ms later (early end-of-file, possibly in the middle of a request) */ };
 
 struct Res { std::vector<std::string> fails; std::string got; uint64_t transitions = 0; bool eof = false; int boundaries = 0; };
 
@@ -97,6 +97,11 @@ Res run_scn(Scn const& sc)
 	srv->register_redirect("/redir", "http://elsewhere/x");
 	srv->register_stall_handler("/stall");
 	std::string stream; for (int r : sc.seq) stream += REQS[r].text;
+	std::vector<int> ref_seq = sc.seq;
+	if (sc.truncate_at >= 0) { // only the requests that are completely inside the bytes sent are requests
+		ref_seq.clear(); size_t end = 0; for (int r : sc.seq) { end += std::strlen(REQS[r].text); if (end <= size_t(sc.truncate_at)) ref_seq.push_back(r); }
+		stream.resize(size_t(sc.truncate_at));
+	}
 	// pieces
 	std::vector<std::string> pieces; { size_t prev = 0; for (int c : sc.cuts) { pieces.push_back(stream.substr(prev, size_t(c) - prev)); prev = size_t(c); } pieces.push_back(stream.substr(prev)); }
 	ip::tcp::socket cli(nC); std::vector<char> rb(8192); int eofs = 0; bool connected = false; size_t next_piece = 0;
@@ -104,7 +109,7 @@ Res run_scn(Scn const& sc)
 	std::function<void()> send_next, reader;
 	reader = [&]() { cli.async_read_some(asio::buffer(rb), [&](error_code const& ec, std::size_t n) { ++R.transitions; if (ec) { if (ec == asio::error::eof) ++eofs; return; } R.got.append(rb.data(), n); reader(); }); };
 	send_next = [&]() {
-		if (next_piece >= pieces.size()) return;
+		if (next_piece >= pieces.size()) { if (sc.truncate_at >= 0) { gap.expires_after(ms(10)); gap.async_wait([&](error_code const& e2) { error_code ig0; if (!e2) cli.close(ig0); }); } return; }
 		std::string const& pc = pieces[next_piece++];
 		if (pc.empty()) { send_next(); return; }
 		asio::async_write(cli, asio::buffer(pc), [&](error_code const& ec, std::size_t) { ++R.transitions; if (ec) return;
@@ -120,7 +125,7 @@ Res run_scn(Scn const& sc)
 	// stop() only ends the listening: a connection the server had already accepted (the client's connect succeeded) is served by the usual rules
 	bool const with_stop = (sc.stop_at_ms >= 0 || (sc.stop_at_boundary >= 0 && stopped)) && !connected;
 	R.eof = eofs > 0;
-	std::vector<Resp> want; bool want_eof, want_stall; reference(sc.seq, sc.keep_alive, want, want_eof, want_stall);
+	std::vector<Resp> want; bool want_eof, want_stall; reference(ref_seq, sc.keep_alive, want, want_eof, want_stall);
 	if (!with_stop) {
 		std::vector<Resp> got; std::string err;
 		if (!parse_responses(R.got, got, err)) fail("framing: " + err);
@@ -135,7 +140,7 @@ Res run_scn(Scn const& sc)
 				}
 			}
 		}
-		if (connected && R.eof != want_eof) fail(fmt("eof: the connection was %s, expected it to %s", R.eof ? "closed by the server" : "kept open", want_eof ? "be closed" : "stay open"));
+		if (connected && R.eof != want_eof && !(sc.truncate_at >= 0 && !want_eof)) fail(fmt("eof: the connection was %s, expected it to %s", R.eof ? "closed by the server" : "kept open", want_eof ? "be closed" : "stay open"));
 	} else {
 		// with stop(): whatever was answered must be a prefix of the reference answers (the last response may be cut short)
 		std::vector<Resp> got; std::string err; parse_responses(R.got, got, err); // keeps the complete responses it found
@@ -182,14 +187,14 @@ struct HttpEngine : Engine
 		for (int x = 0; x < n3; ++x) for (int y = 0; y < n3; ++y) for (int z = 0; z < n3; ++z) seqs.push_back({ pick[x], pick[y], pick[z] });
 		return seqs.size() * 2;
 	}
-	std::string scn_str(Scn const& s) { std::string o = s.keep_alive ? "keep-alive " : "no-keep-alive "; for (int r : s.seq) o += "[" + jesc(std::string(REQS[r].text).substr(0, std::string(REQS[r].text).find("\r\n"))) + (REQS[r].close ? " +close" : "") + "] "; o += "cuts="; for (int c : s.cuts) o += std::to_string(c) + ","; o += fmt(" spacing=%dms", s.spacing_ms); if (s.stop_at_ms >= 0) o += fmt(" stop@%dms", s.stop_at_ms); return o; }
+	std::string scn_str(Scn const& s) { std::string o = s.keep_alive ? "keep-alive " : "no-keep-alive "; for (int r : s.seq) o += "[" + jesc(std::string(REQS[r].text).substr(0, std::string(REQS[r].text).find("\r\n"))) + (REQS[r].close ? " +close" : "") + "] "; o += "cuts="; for (int c : s.cuts) o += std::to_string(c) + ","; o += fmt(" spacing=%dms", s.spacing_ms); if (s.stop_at_ms >= 0) o += fmt(" stop@%dms", s.stop_at_ms); if (s.stop_at_boundary >= 0) o += fmt(" stop@boundary %d", s.stop_at_boundary); if (s.truncate_at >= 0) o += fmt(" client hangs up after %d bytes", s.truncate_at); return o; }
 	void one(Ctx& ctx, uint64_t u, Scn const& s)
 	{
 		if (!ctx.next_case()) return;
-		Case c; c.set("u", (long long)u).set_ints("cuts", s.cuts).set("sp", s.spacing_ms).set("stop", s.stop_at_ms).set("stopb", s.stop_at_boundary).set("thorough", ctx.args.thorough() ? 1 : 0);
+		Case c; c.set("u", (long long)u).set_ints("cuts", s.cuts).set("sp", s.spacing_ms).set("stop", s.stop_at_ms).set("stopb", s.stop_at_boundary).set("trunc", s.truncate_at).set("thorough", ctx.args.thorough() ? 1 : 0);
 		ctx.begin(c);
 		Res r = run_scn(s);
-		ctx.R.transitions += r.transitions; ctx.state(fmt("%llu|", (unsigned long long)u) + c.str("cuts") + fmt("|%d|%d|%d", s.spacing_ms, s.stop_at_ms, s.stop_at_boundary)); ctx.outcome(fmt("%llx/%d", (unsigned long long)fnv(r.got), int(r.eof)));
+		ctx.R.transitions += r.transitions; ctx.state(fmt("%llu|", (unsigned long long)u) + c.str("cuts") + fmt("|%d|%d|%d|%d", s.spacing_ms, s.stop_at_ms, s.stop_at_boundary, s.truncate_at)); ctx.outcome(fmt("%llx/%d", (unsigned long long)fnv(r.got), int(r.eof)));
 		auto clause_of = [](std::string const& x) { return x.substr(0, x.find(':')); };
 		for (auto& f : r.fails) add_violation(ctx, clause_of(f), c, scn_str(s) + ": " + f, clause_of(f));
 		if (ctx.R.samples.empty() && s.cuts.size() == 1 && s.seq.size() == 2) ctx.R.sample(scn_str(s) + fmt(" => %zu bytes received, eof=%d", r.got.size(), int(r.eof)));
@@ -213,12 +218,16 @@ struct HttpEngine : Engine
 				ctx.R.counters["stop_boundaries"] += uint64_t(base.boundaries);
 			}
 		}
+		if (s.seq.size() <= 2) { // the client hangs up after every proper prefix of the stream (early end-of-file, in the middle of a request or between two); the next client must then be served
+			for (size_t n = 1; n < len; ++n) { Scn t = s; t.truncate_at = int(n); one(ctx, u, t); if (n > 20 && n % 7 == 0) { t.cuts = { int(n / 2) }; t.spacing_ms = 1; one(ctx, u, t); } }
+			ctx.R.counters["truncations"] += uint64_t(len - 1);
+		}
 		ctx.R.bounds["requests_per_sequence"] = 3; ctx.R.bounds["cuts"] = 2;
 	}
 	int replay(Case const& c, Args const& a) override
 	{
 		Args a2 = a; a2.tier = c.num("thorough") ? "thorough" : "quick"; units(a2);
-		uint64_t u = uint64_t(c.num("u")); Scn s; s.seq = seqs.at(size_t(u / 2)); s.keep_alive = u % 2 == 0; s.cuts = c.ints("cuts"); s.spacing_ms = int(c.num("sp")); s.stop_at_ms = int(c.num("stop", -1)); s.stop_at_boundary = int(c.num("stopb", -1));
+		uint64_t u = uint64_t(c.num("u")); Scn s; s.seq = seqs.at(size_t(u / 2)); s.keep_alive = u % 2 == 0; s.cuts = c.ints("cuts"); s.spacing_ms = int(c.num("sp")); s.stop_at_ms = int(c.num("stop", -1)); s.stop_at_boundary = int(c.num("stopb", -1)); s.truncate_at = int(c.num("trunc", -1));
 		vf_quiet = 1; Res r = run_scn(s); vf_quiet = 0;
 		std::fprintf(stdout, "%s\nclient received (%zu bytes, eof=%d): %s\n", scn_str(s).c_str(), r.got.size(), int(r.eof), jesc(r.got.substr(0, 600)).c_str());
 		for (auto& f : r.fails) std::fprintf(stdout, "VIOLATION %s\n", f.c_str());
